@@ -189,6 +189,30 @@ func refBind(p *PSpec, raw []string, hasKey bool) (bool, interface{}) {
 	if len(raw) > 0 {
 		last = raw[len(raw)-1]
 	}
+	if p.Type == "array" && p.Inner != nil {
+		if p.Required && !hasKey && p.In != "header" {
+			return false, nil
+		}
+		parts := splitByFormat(last, p.CFmt)
+		if len(parts) == 0 {
+			if p.Required && !p.AllowEmpty {
+				return false, nil
+			}
+			return true, nil
+		}
+		var vals []interface{}
+		for _, part := range parts {
+			ok, v := refNested(p.Inner, part)
+			if !ok {
+				return false, nil
+			}
+			vals = append(vals, v)
+		}
+		if !countsOK(vals, p.MinItems, p.MaxItems, p.Unique) {
+			return false, nil
+		}
+		return true, vals
+	}
 	if p.Type == "array" {
 		if p.Required && !hasKey && p.In != "header" {
 			return false, nil
@@ -255,6 +279,97 @@ func refBind(p *PSpec, raw []string, hasKey bool) (bool, interface{}) {
 	return true, v
 }
 
+// uniqueAsText: the reading under which a nested level's uniqueItems compares the parts as written ("1" and "01" differ);
+// used only to name the cause of a disagreement, never as the expectation
+var uniqueAsText bool
+
+func countsOK(vals []interface{}, minItems, maxItems *int64, unique bool) bool {
+	if minItems != nil && int64(len(vals)) < *minItems {
+		return false
+	}
+	if maxItems != nil && int64(len(vals)) > *maxItems {
+		return false
+	}
+	if unique {
+		seen := map[string]bool{}
+		for _, v := range vals {
+			k := fmt.Sprint(v)
+			if seen[k] {
+				return false
+			}
+			seen[k] = true
+		}
+	}
+	return true
+}
+
+// refNested: one element of a nested array parameter: split by this level's separator, every part is an element
+// (an array again, or a leaf), the level's item counts and uniqueness (of values) apply
+func refNested(is *ISpec, raw string) (bool, interface{}) {
+	parts := splitByFormat(raw, is.CFmt)
+	vals := []interface{}{}
+	for _, part := range parts {
+		if is.Inner != nil {
+			ok, v := refNested(is.Inner, part)
+			if !ok {
+				return false, nil
+			}
+			vals = append(vals, v)
+			continue
+		}
+		v, ok := parseScalar(is.Type, is.Format, part)
+		if !ok {
+			return false, nil
+		}
+		if f, isNum := v.(float64); isNum && is.Min != nil && f < float64(*is.Min) {
+			return false, nil
+		}
+		if sv, isStr := v.(string); isStr && is.MinLen != nil && int64(utf8.RuneCountInString(sv)) < *is.MinLen {
+			return false, nil
+		}
+		vals = append(vals, v)
+	}
+	if uniqueAsText && is.Unique {
+		texts := make([]interface{}, len(parts))
+		for i, part := range parts {
+			texts[i] = part
+		}
+		if !countsOK(vals, is.MinItems, is.MaxItems, false) || !countsOK(texts, nil, nil, true) {
+			return false, nil
+		}
+		return true, vals
+	}
+	if !countsOK(vals, is.MinItems, is.MaxItems, is.Unique) {
+		return false, nil
+	}
+	return true, vals
+}
+
+// nestedRaw: a valid rendering: n elements per level within the level's counts, leaves distinct
+func nestedRaw(is *ISpec, salt int) string {
+	n := 2
+	if is.MaxItems != nil && int64(n) > *is.MaxItems {
+		n = int(*is.MaxItems)
+	}
+	if is.MinItems != nil && int64(n) < *is.MinItems {
+		n = int(*is.MinItems)
+	}
+	var parts []string
+	for i := 0; i < n; i++ {
+		switch {
+		case is.Inner != nil:
+			parts = append(parts, nestedRaw(is.Inner, salt*3+i))
+		case is.Type == "integer":
+			parts = append(parts, fmt.Sprint(1+salt*3+i))
+		case is.Type == "boolean":
+			parts = append(parts, []string{"true", "false"}[(salt+i)%2])
+		default:
+			parts = append(parts, fmt.Sprintf("v%d%c", salt, 'a'+i))
+		}
+	}
+	return strings.Join(parts, sepOf[is.CFmt])
+}
+
 // ---------- values for requests ----------
 func validRaw(p *PSpec, r *rng.R) string {
 	one := func(typ, format string) string {
@@ -297,6 +412,20 @@ func validRaw(p *PSpec, r *rng.R) string {
 			return r.Pick([]string{"true", "false"})
 		}
 		return "x"
+	}
+	if p.Type == "array" && p.Inner != nil {
+		n := 2
+		if p.MaxItems != nil && int64(n) > *p.MaxItems {
+			n = int(*p.MaxItems)
+		}
+		if p.MinItems != nil && int64(n) < *p.MinItems {
+			n = int(*p.MinItems)
+		}
+		var parts []string
+		for i := 0; i < n; i++ {
+			parts = append(parts, nestedRaw(p.Inner, i+1))
+		}
+		return strings.Join(parts, sepOf[p.CFmt])
 	}
 	if p.Type == "array" {
 		n := 2
@@ -372,6 +501,57 @@ func deviations(p *PSpec) [][]string {
 		add("0")
 	case "array":
 		sep := sepOf[p.CFmt]
+		if p.Inner != nil {
+			in := p.Inner
+			isep := sepOf[in.CFmt]
+			lf := in.leaf()
+			a, b, c := "1", "2", "3"
+			switch lf.Type {
+			case "string":
+				a, b, c = "aa", "bb", "cc"
+			case "boolean":
+				a, b, c = "true", "false", "true"
+			}
+			if in.Inner != nil {
+				// three levels: elements of the middle level are single leaves
+				dsep := sepOf[in.Inner.CFmt]
+				add(a + dsep + b + isep + c + sep + b + dsep + c + isep + a)
+				add(a + dsep + a + isep + b)
+				add(a + dsep + "x" + isep + b)
+				add(a + isep + a)
+				add(a + sep + a)
+				return out
+			}
+			add(a + isep + b)                                                    // one element
+			add(a + isep + b + sep + b + isep + c)                               // two elements
+			add(a + sep + b + sep + c + sep + a + isep + b + sep + b + isep + c) // five elements
+			add(a + isep + b + isep + c + isep + a + isep + b)                   // an element of five
+			add(a)                                                               // an element of one
+			add(a + isep + a)                                                    // a repeated leaf
+			add(a + isep + b + sep + a + isep + b)                               // a repeated element
+			add(a + isep + "x" + sep + b)                                        // a leaf of another kind
+			if strings.TrimSpace(sep) != "" && strings.TrimSpace(isep) != "" {
+				// blanks around parts (with a blank separator the text would denote elements that split to nothing: not exercised,
+				// Swagger 2.0 does not say what such an element is)
+				add(" " + a + " " + isep + " " + b + " " + sep + " " + c + " ")
+			}
+			add(a+isep+b, b+isep+c) // repeated key: the last occurrence
+			switch lf.Type {
+			case "integer":
+				add(a + isep + "01") // equal values written differently
+				add("0" + isep + b)  // below a minimum of 1
+				add("-1" + isep + b)
+				add("5000000000" + isep + b) // beyond 32 bits
+				add(a + isep + "1.5")
+			case "string":
+				add("a" + isep + b) // shorter than a minLength of 2
+				add("éé" + isep + b)
+			case "boolean":
+				add("yes" + isep + "no")
+				add("maybe" + isep + a)
+			}
+			return out
+		}
 		if p.CFmt == "multi" {
 			add("1")
 			add("1", "2", "3", "4")
@@ -783,7 +963,10 @@ func main() {
 			for j := range op.Params {
 				p := &op.Params[j]
 				raw := validRaw(p, g.r)
-				if p.Type == "array" {
+				if p.Type == "array" && p.Inner != nil {
+					_, v := refBind(p, []string{raw}, true)
+					cparams[p.GoName] = v
+				} else if p.Type == "array" {
 					var arr []interface{}
 					its := splitByFormat(raw, p.CFmt)
 					if p.CFmt == "multi" {
@@ -927,7 +1110,15 @@ func main() {
 					if reached {
 						kind = "handler-reached-for-invalid-request"
 					}
-					addV("C03", "c03/"+kind+"["+paramClass(opSpec, c.note)+"]", "the generated server and the reference binder disagree on "+c.note, in,
+					cls := paramClass(opSpec, c.note)
+					if reached && c.devParam != nil && c.devParam.Inner != nil {
+						uniqueAsText = true
+						if ok, _ := refBind(c.devParam, c.devRaws, c.devKey); ok {
+							cls = "nested-array-uniqueItems-compared-as-text"
+						}
+						uniqueAsText = false
+					}
+					addV("C03", "c03/"+kind+"["+cls+"]", "the generated server and the reference binder disagree on "+c.note, in,
 						map[string]interface{}{"status": res.Status, "reached": reached, "expected_reach": e.reach, "params": res.Params})
 				} else if !reached && (res.Status < 400 || res.Status >= 500) {
 					addV("C03", "c03/rejection-status-not-4xx", fmt.Sprintf("an invalid request is answered with %d", res.Status), in, nil)
@@ -1257,7 +1448,7 @@ func sparamCoq(p *PSpec) (string, bool) {
 }
 
 func aparamCoq(p *PSpec) (string, bool) {
-	if p.In == "path" || len(p.Enum) > 0 {
+	if p.In == "path" || len(p.Enum) > 0 || p.Inner != nil {
 		return "", false
 	}
 	var el string
@@ -1273,8 +1464,8 @@ func aparamCoq(p *PSpec) (string, bool) {
 		return "", false
 	}
 	sep := map[string]int{"": 44, "csv": 44, "ssv": 32, "tsv": 9, "pipes": 124, "multi": 44}[p.CFmt]
-	return fmt.Sprintf("{| ap_required := %s; ap_multi := %s; ap_sep := %d%%N; ap_elem := %s; ap_minitems := %s; ap_maxitems := %s; ap_unique := %s |}",
-		coqpp.Bool(p.Required), coqpp.Bool(p.CFmt == "multi"), sep, el, coqpp.OptZ(p.MinItems), coqpp.OptZ(p.MaxItems), coqpp.Bool(p.Unique)), true
+	return fmt.Sprintf("{| ap_required := %s; ap_allow_empty := %s; ap_multi := %s; ap_sep := %d%%N; ap_elem := %s; ap_minitems := %s; ap_maxitems := %s; ap_unique := %s |}",
+		coqpp.Bool(p.Required), coqpp.Bool(p.AllowEmpty), coqpp.Bool(p.CFmt == "multi"), sep, el, coqpp.OptZ(p.MinItems), coqpp.OptZ(p.MaxItems), coqpp.Bool(p.Unique)), true
 }
 
 func coqCase(sp *Spec, op *OSpec, c *tcase, res *tresult, reached bool) string {
